@@ -1,9 +1,8 @@
 (* C08/Properties.v — RADIUS messages take effect only when authenticated with the shared secret.
    Every theorem quantifies over the hash function [md5raw] (MD5 is an argument, not an axiom), over all
    datagrams, configurations and histories.  Flag records: [repaired] = every repair in place; [head] = what
-   /repo HEAD implements (the five committed C08 fixes; NOT the Event-Timestamp requirement of
-   fixes/C08_require_event_timestamp.patch and NOT the one extra second of duplicate-cache lifetime of
-   fixes/C08_replay_cache_lifetime.patch — the two findings recorded as known).  Theorems that do not depend on that requirement are
+   /repo HEAD implements (the six committed C08 fixes; NOT the Event-Timestamp requirement of
+   fixes/C08_require_event_timestamp.patch — the one finding still recorded as known).  Theorems that do not depend on that requirement are
    stated for every flag record with the relevant repair on, so they cover both.  Each [_refuted] lemma shows
    that the statement fails when the named repair is off. *)
 From OV Require Import Common.Base C08.Model C08.Proofs.
@@ -418,24 +417,28 @@ Theorem C08_cache_entry_outlives_window :
 Proof. exact ttl_outlives_window. Qed.
 Print Assumptions C08_cache_entry_outlives_window.
 
-(* /repo HEAD keeps an entry for exactly 2*window.  A request stamped `window` seconds AHEAD of the clock, executed at
+(* Before commit 2b1fb34 ([pre_ttl]) an entry was kept for exactly 2*window.  A request stamped `window` seconds AHEAD of the clock, executed at
    t0 (second 700, stamp 1000, window 300), is still inside the window during the whole second 1300, but its entry expired
-   at t0 + 600 s: replayed in the rest of that second it is executed again (known finding
-   coa-duplicate-cache-expires-inside-window; fix: one more second of lifetime). *)
-Lemma C08_cache_expiry_inside_window_refuted :
+   at t0 + 600 s: replayed in the rest of that second it was executed again (finding
+   coa-duplicate-cache-expires-inside-window, fixed in 2b1fb34: one more second of lifetime). *)
+Lemma C08_cache_expiry_inside_window_before_2b1fb34_refuted :
   exists o1 c1,
-    coa_step_t toy cache_max head false None ex_cfg 700 700100 2130706434 0 ex_dm_user rcache0 = (o1, c1) /\
+    coa_step_t toy cache_max pre_ttl false None ex_cfg 700 700100 2130706434 0 ex_dm_user rcache0 = (o1, c1) /\
     effect o1 = Some (EvTerminate (3, [97; 108])) /\
-    effect (fst (coa_step_t toy cache_max head false None ex_cfg 1300 1300400 2130706434 0 ex_dm_user c1))
+    effect (fst (coa_step_t toy cache_max pre_ttl false None ex_cfg 1300 1300400 2130706434 0 ex_dm_user c1))
     = Some (EvTerminate (3, [97; 108])) /\
-    effect (fst (coa_step_t toy cache_max head false None ex_cfg 1300 1300050 2130706434 0 ex_dm_user c1)) = None.
+    effect (fst (coa_step_t toy cache_max pre_ttl false None ex_cfg 1300 1300050 2130706434 0 ex_dm_user c1)) = None.
 Proof. eexists. eexists. split; [vm_compute; reflexivity|]. vm_compute. repeat split; reflexivity. Qed.
-Print Assumptions C08_cache_expiry_inside_window_refuted.
+Print Assumptions C08_cache_expiry_inside_window_before_2b1fb34_refuted.
 
 (* the same history with the corrected lifetime, and the capacity limit (observation, both variants: with a capacity of 2
    a third distinct request evicts the first, whose replay inside the window is then executed again — with the real
    capacity this needs 4096 newer authenticated requests inside 2*window) *)
 Example C08_timed_cache_nonvacuous :
+  f_ttl head = true /\
+  (let '(o1, c1) := coa_step_t toy cache_max head false None ex_cfg 700 700100 2130706434 0 ex_dm_user rcache0 in
+   effect o1 = Some (EvTerminate (3, [97; 108])) /\
+   effect (fst (coa_step_t toy cache_max head false None ex_cfg 1300 1300400 2130706434 0 ex_dm_user c1)) = None) /\
   (let '(o1, c1) := coa_step_t toy cache_max repaired false None ex_cfg 700 700100 2130706434 0 ex_dm_user rcache0 in
    effect o1 = Some (EvTerminate (3, [97; 108])) /\
    effect (fst (coa_step_t toy cache_max repaired false None ex_cfg 1300 1300400 2130706434 0 ex_dm_user c1)) = None) /\
@@ -474,7 +477,7 @@ Print Assumptions C08_replayed_older_coa_reverts_newer_refuted.
    resolved from the identification attributes of the packet alone.  A Disconnect takes effect only when the
    packet carries nothing but identification attributes. *)
 Theorem C08_coa_mutable_only :
-  forall md5raw tsr dd tt cfg now src bus raw e,   (* flt true true true = repaired, flt false true false = head *)
+  forall md5raw tsr dd tt cfg now src bus raw e,   (* flt true true true = repaired, flt false true true = head *)
     effect (coa_step md5raw (flt tsr dd tt) cfg now src bus raw) = Some e ->
     exists p, parse raw = Some p /\
       match e with
